@@ -2,7 +2,6 @@
 package carrier
 
 import (
-	"fmt"
 	"reflect"
 
 	"gitee.com/xuesongtao/protoc-go-valid/valid"
@@ -153,7 +152,10 @@ func Validate(k Kind, v reflect.Value, rules string) (string, bool) {
 	case StructRM:
 		b := boxOf(v)
 		if b == nil {
-			panic(fmt.Sprintf("carrier: no Box instantiation for %s", v.Type()))
+			// no named Box instantiation for this type: an unnamed struct { F T } carries it (path "F")
+			p := reflect.New(TagType(v.Type(), ""))
+			p.Elem().Field(0).Set(v)
+			b = p.Interface()
 		}
 		err = valid.Struct(b, valid.RM{"F": rules})
 	case Var:
